@@ -74,8 +74,31 @@ type absSample struct {
 	Sec int    `json:"sec"`
 	Ms  int    `json:"ms"`
 	Tag string `json:"tag"`
-	ID  int    `json:"id"`
-	F   []int  `json:"f"`
+	// a tag with column / line delimiters travels as atoms: text pieces and "<TAB>" "<LF>" "<CR>" (spec/Phout.tla
+	// TagText says what the tag column must be; rawTag renders the real characters)
+	TagP []string `json:"tagp,omitempty"`
+	ID   int      `json:"id"`
+	F    []int    `json:"f"`
+}
+
+func (a absSample) rawTag() string {
+	if len(a.TagP) == 0 {
+		return a.Tag
+	}
+	var b strings.Builder
+	for _, p := range a.TagP {
+		switch p {
+		case "<TAB>":
+			b.WriteByte('\t')
+		case "<LF>":
+			b.WriteByte('\n')
+		case "<CR>":
+			b.WriteByte('\r')
+		default:
+			b.WriteString(p)
+		}
+	}
+	return b.String()
 }
 
 var fieldSetters = []func(s *netsample.Sample, v int){
@@ -102,7 +125,7 @@ func setPrivate(s *netsample.Sample, name string, v interface{}) {
 }
 
 func realSample(a absSample) *netsample.Sample {
-	s := netsample.Acquire(a.Tag)
+	s := netsample.Acquire(a.rawTag())
 	s.SetID(uint64(a.ID))
 	for k, set := range fieldSetters {
 		if set != nil {
@@ -637,6 +660,11 @@ func (cfg aggRun) sample(r *rand.Rand, g, i int) (absSample, core.Sample) {
 		return a, &tokSample{G: g, I: i, returned: tokCounter(cfg.run)}
 	}
 	if cfg.kind == "phout" {
+		// what an ammo file can carry: a TAB inside a uri / uripost / raw tag, any of TAB, LF, CR in a JSON ammo tag
+		if r.Intn(8) == 0 {
+			a.TagP = [][]string{{a.Tag, "<TAB>", "x"}, {"<TAB>"}, {"a", "<LF>", "b"}, {a.Tag, "<CR>", "<LF>"}, {"<LF>"}, {"k", "<CR>"}}[r.Intn(6)]
+			a.Tag = ""
+		}
 		return a, realSample(a)
 	}
 	// jsonlines must stay one value per line whatever the strings contain
